@@ -28,6 +28,19 @@ func (f FatalPanic) Error() string { return "FATAL: " + f.Msg }
 type fatalHook struct{}
 
 func (fatalHook) OnWrite(e *zapcore.CheckedEntry, _ []zapcore.Field) {
+	if panicMode.Load() == 1 {
+		// capture mode: file.d would exit here; record it and end only the calling goroutine
+		panicMu.Lock()
+		panicMsgs = append(panicMsgs, "FATAL: "+e.Message+"\n"+string(debugStack()))
+		panicMu.Unlock()
+		if ch := panicNotify.Load(); ch != nil {
+			select {
+			case *ch <- struct{}{}:
+			default:
+			}
+		}
+		runtime.Goexit()
+	}
 	panic(FatalPanic{Msg: e.Message})
 }
 
